@@ -22,11 +22,11 @@ import (
 )
 
 type c02Transcript struct {
-	msgs   [][]byte   // application messages
-	wire   []byte     // recorded protected bytes of the faulted direction
-	frames [][]byte   // wire split into frames (header+body)
-	other  []byte     // a protected frame of the opposite direction (for splices)
-	pre    []byte     // bytes the receiver must consume before the faulted leg (BA: nothing; see mkRecv)
+	msgs   [][]byte // application messages
+	wire   []byte   // recorded protected bytes of the faulted direction
+	frames [][]byte // wire split into frames (header+body)
+	other  []byte   // a protected frame of the opposite direction (for splices)
+	pre    []byte   // bytes the receiver must consume before the faulted leg (BA: nothing; see mkRecv)
 	dir    string
 	long   bool
 }
@@ -353,7 +353,7 @@ func c02Ops() []c02Op {
 func C02Plan() *vlib.Plan {
 	p := &vlib.Plan{
 		Property: "C02", Level: "fault_enumeration",
-		Rule: "E-FAULT: recorded AES-GCM transcripts (3-frame, empty, 2-frame, 1-frame message; thorough adds a 5000-byte multi-frame message) in both directions x every single fault: each bit of every header/IV/ciphertext/tag flipped, truncation at every byte, every frame dropped/duplicated/swapped/replayed later, length fields +-1/+-16, a forged frame (7 lengths x 5 end flags x 2 bodies) and a cross-direction frame inserted at every position; thorough: all ordered pairs of frame-level faults. 3 receive APIs. Non-trivial = the mutated wire differs from the recorded one and was fed to the receiver; case ids are distinct by construction.",
+		Rule:   "E-FAULT: recorded AES-GCM transcripts (3-frame, empty, 2-frame, 1-frame message; thorough adds a 5000-byte multi-frame message) in both directions x every single fault: each bit of every header/IV/ciphertext/tag flipped, truncation at every byte, every frame dropped/duplicated/swapped/replayed later, length fields +-1/+-16, a forged frame (7 lengths x 5 end flags x 2 bodies) and a cross-direction frame inserted at every position; thorough: all ordered pairs of frame-level faults. 3 receive APIs. Non-trivial = the mutated wire differs from the recorded one and was fed to the receiver; case ids are distinct by construction.",
 		Assume: []string{"the receiver learns the peer IV from the wire, so a recorded transcript replays deterministically", "Go crypto/aes+cipher (GCM) trusted"},
 	}
 	p.Gen = func(tier string, yield func(vlib.Case)) {
